@@ -177,6 +177,7 @@ type diffOpts struct {
 	// NonTrivial decides from static tags and dynamic events
 	NonTrivial func(tags map[string]int, ev map[string]int) bool
 	SigExtra   func(o execOutcome, tags map[string]int) rep.Sig
+	Enumerated bool // deterministic enumeration: record the violation and go on (no rapid involved)
 }
 
 func diffProgram(t rep.Skipper, r *rep.R, p *ts.Program, o diffOpts) {
@@ -218,6 +219,10 @@ func diffProgram(t rep.Skipper, r *rep.R, p *ts.Program, o diffOpts) {
 		for k, v := range o.SigExtra(out, o.Tags) {
 			sig[k] = v
 		}
+	}
+	if o.Enumerated {
+		r.Violate(sig, out.Msg+"\n--- source\n"+src+"--- script\n"+out.Script, c)
+		return
 	}
 	r.FailCase(t, sig, out.Msg+"\n--- source\n"+src+"--- script\n"+out.Script, c)
 }
